@@ -173,6 +173,8 @@ def run_shard(shard, tier, seed):
 
 
 def replay(case):
+    if case[0] == 'enc':
+        return C.replay_enc(ID, case)
     res = H.Result(ID)
     _, T, v, codec, mode = case
     check_case(res, T, v, tuple(mode))
